@@ -16,3 +16,10 @@ pub use self::verifier::batch_verify;
 pub use self::verifier::Verifier;
 
 pub use crate::errors::R1CSError;
+
+// Verification hooks (off by default): name the randomized-phase types so that
+// an external monitor can implement its own traits for them.
+#[cfg(feature = "verif-hooks")]
+pub use self::prover::RandomizingProver;
+#[cfg(feature = "verif-hooks")]
+pub use self::verifier::RandomizingVerifier;
